@@ -6,6 +6,7 @@ import re
 from typing import Dict, List, Tuple
 
 from .. import AnalysisError
+from ..astutil import call_chain, chain
 from ..core import Ctx, Report
 from ..decoders import Decoders, canon_cases, consumed_ranges, _leaf_str
 from ..framing import families
@@ -104,8 +105,10 @@ def check(ctx: Ctx, rep: Report):
                   bad="%s.%s row '%s' (%s): %s" % (row.owner.name, row.table, row.id_, row.cls.name, "; ".join(bad)))
     # Sensor.read = seek(self.offset) + read_value
     rd = sensor.methods.get("read")
-    ok = rd is not None and any(isinstance(n, ast.Call) and norm(n) == "%s.seek(self.offset)" % rd.params[1] for n in ast.walk(rd.node)) \
-        and any(isinstance(n, ast.Return) and isinstance(n.value, ast.Call) and norm(n.value) == "self.read_value(%s)" % rd.params[1] for n in ast.walk(rd.node))
+    from ..astutil import returned_values as _rv
+    ok = rd is not None and any(isinstance(n, ast.Call) and call_chain(n) == (rd.params[1], "seek") and len(n.args) == 1 and chain(n.args[0]) == ("self", "offset")
+                                for n in ast.walk(rd.node)) \
+        and any(isinstance(v, ast.Call) and call_chain(v) == ("self", "read_value") and len(v.args) == 1 and norm(v.args[0]) == rd.params[1] for v in _rv(rd.node))
     rep.check(ok, "C12.R2", "sensor-read", rd.loc() if rd else sensor.module.relpath, "Sensor.read seeks to self.offset and decodes with read_value",
               bad="Sensor.read is no longer 'seek(self.offset); return self.read_value(data)'")
     # ---- R3
@@ -117,10 +120,15 @@ def check(ctx: Ctx, rep: Report):
                   bad="%s.get_offset is not %s" % (fam.name, "the identity" if fam.kind == "aa55" else "2*(address - first_address)"))
     pr = prog.cls("ProtocolResponse")
     sk, rdm = pr.methods.get("seek"), pr.methods.get("read")
-    ok = sk is not None and any(isinstance(n, ast.Call) and norm(n) == "self._bytes.seek(self.command.get_offset(%s))" % sk.params[1] for n in ast.walk(sk.node))
+    def _is(n, chain_, args):
+        """call with the given (alias-canonical) access chain whose arguments satisfy the given predicates"""
+        return isinstance(n, ast.Call) and call_chain(n) == chain_ and len(n.args) == len(args) and all(f(a) for f, a in zip(args, n.args))
+    ok = sk is not None and any(_is(n, ("self", "_bytes", "seek"), [lambda a: _is(a, ("self", "command", "get_offset"), [lambda b: norm(b) == sk.params[1]])])
+                                for n in ast.walk(sk.node))
     rep.check(ok, "C12.R3", "response-seek", sk.loc() if sk else pr.module.relpath, "ProtocolResponse.seek positions at command.get_offset(address)",
               bad="ProtocolResponse.seek no longer positions the buffer at command.get_offset(address)")
-    ok = rdm is not None and any(isinstance(n, ast.Return) and norm(n.value) == "self._bytes.read(%s)" % rdm.params[1] for n in ast.walk(rdm.node) if isinstance(n, ast.Return) and n.value is not None)
+    from ..astutil import returned_values
+    ok = rdm is not None and any(_is(v, ("self", "_bytes", "read"), [lambda a: norm(a) == rdm.params[1]]) for v in returned_values(rdm.node))
     rep.check(ok, "C12.R3", "response-read", rdm.loc() if rdm else pr.module.relpath, "ProtocolResponse.read reads from the trimmed payload buffer",
               bad="ProtocolResponse.read no longer returns self._bytes.read(size)")
     # ---- R4 docstring byte counts
